@@ -298,6 +298,221 @@ def _is_predicate(e):
     return isinstance(e, (ast.Compare, ast.BoolOp)) or (isinstance(e, ast.UnaryOp) and isinstance(e.op, ast.Not))
 
 
+def _inline_local_closures(root):
+    """a local function of ONE return statement that is only ever called by its name in the enclosing function itself
+    (`def forms(as_float): return as_float(value), int(value)` ... `a, b = forms(float)`): the returned expression is read in
+    place of each call, and a lambda that came in as an argument is applied (`(lambda v: v + 0.0)(value)` reads `value + 0.0`).
+    The names the expression takes from the enclosing function must not be re-bound after the definition.  Returns True when
+    something was rewritten"""
+    changed = False
+    stores = {}
+    for n in walk_local(root):
+        if isinstance(n, ast.Name) and isinstance(n.ctx, (ast.Store, ast.Del)):
+            stores.setdefault(n.id, []).append(n)
+    for g in _local_defs(root):
+        owner = getattr(g, 'parent', None)
+        while owner is not None and not isinstance(owner, FUNC_TYPES + (ast.Lambda, ast.For, ast.AsyncFor, ast.While)):
+            owner = getattr(owner, 'parent', None)
+        if owner is not root or g.decorator_list:
+            continue
+        body = [x for x in g.body if not (isinstance(x, ast.Expr) and isinstance(x.value, ast.Constant) and isinstance(x.value.value, str))]
+        if len(body) != 1 or not isinstance(body[0], ast.Return) or body[0].value is None:
+            continue
+        expr = body[0].value
+        if any(isinstance(x, (ast.Yield, ast.YieldFrom, ast.Await, ast.NamedExpr, ast.Lambda, ast.ListComp, ast.SetComp, ast.DictComp, ast.GeneratorExp))
+               for x in ast.walk(expr)):
+            continue
+        a = g.args
+        if a.vararg or a.kwarg or a.kwonlyargs or a.posonlyargs or a.defaults:
+            continue
+        params = [x.arg for x in a.args]
+        free = {x.id for x in ast.walk(expr) if isinstance(x, ast.Name)} - set(params)
+        if any(getattr(st_, 'lineno', 0) >= g.lineno for nm in free for st_ in stores.get(nm, [])) or len(stores.get(g.name, [])) > 0:
+            continue
+        loads = [x for x in ast.walk(root) if isinstance(x, ast.Name) and x.id == g.name and isinstance(x.ctx, ast.Load)]
+        calls = []
+        for x in loads:
+            p = getattr(x, 'parent', None)
+            own = p
+            while own is not None and not isinstance(own, FUNC_TYPES + (ast.Lambda,)):
+                own = getattr(own, 'parent', None)
+            if not (isinstance(p, ast.Call) and p.func is x and own is root and not p.keywords and len(p.args) == len(params)
+                    and all(isinstance(v, (ast.Name, ast.Constant, ast.Lambda)) or (isinstance(v, ast.Attribute) and dotted(v)) or _pure_expr(v) for v in p.args)):
+                calls = None
+                break
+            calls.append(p)
+        if not calls or len(calls) > 4:
+            continue
+        for c in calls:
+            binding = dict(zip(params, c.args))
+
+            class _Sub(ast.NodeTransformer):
+                def visit_Name(self, node, binding=binding):
+                    if isinstance(node.ctx, ast.Load) and node.id in binding:
+                        return ast.copy_location(_clone_ast(binding[node.id]), node)
+                    return node
+            new = ast.fix_missing_locations(ast.copy_location(_Sub().visit(_clone_ast(expr)), c))
+            par = c.parent
+            for f_, v in ast.iter_fields(par):
+                if v is c:
+                    setattr(par, f_, new)
+                elif isinstance(v, list) and any(y is c for y in v):
+                    v[:] = [new if y is c else y for y in v]
+            changed = True
+    if changed:
+        class _Beta(ast.NodeTransformer):
+            def visit_Call(self, node):
+                self.generic_visit(node)
+                f = node.func
+                if isinstance(f, ast.Lambda) and not node.keywords and not (f.args.vararg or f.args.kwarg or f.args.kwonlyargs or f.args.posonlyargs or f.args.defaults) \
+                        and len(f.args.args) == len(node.args) \
+                        and all(isinstance(v, (ast.Name, ast.Constant)) or (isinstance(v, ast.Attribute) and dotted(v)) or _pure_expr(v) for v in node.args):
+                    binding = dict(zip([x.arg for x in f.args.args], node.args))
+
+                    class _Sub(ast.NodeTransformer):
+                        def visit_Name(self, n2):
+                            if isinstance(n2.ctx, ast.Load) and n2.id in binding:
+                                return ast.copy_location(_clone_ast(binding[n2.id]), n2)
+                            return n2
+                    return ast.copy_location(_Sub().visit(_clone_ast(f.body)), node)
+                return node
+        _Beta().visit(root)
+        ast.fix_missing_locations(root)
+        set_parents(root)
+    return changed
+
+
+def _local_defs(root):
+    """the function definitions directly inside root's own body (at any statement depth, not inside other definitions)"""
+    res = []
+    stack = list(root.body)
+    while stack:
+        n = stack.pop()
+        if isinstance(n, ast.FunctionDef):
+            res.append(n)
+            continue
+        if isinstance(n, (ast.AsyncFunctionDef, ast.ClassDef, ast.Lambda)):
+            continue
+        stack.extend(c for c in ast.iter_child_nodes(n) if isinstance(c, ast.stmt) or isinstance(c, ast.ExceptHandler) or isinstance(c, ast.match_case))
+    return res
+
+
+def _has_local_closure(root):
+    for g in _local_defs(root):
+        if True:
+            body = [x for x in g.body if not (isinstance(x, ast.Expr) and isinstance(x.value, ast.Constant) and isinstance(x.value.value, str))]
+            if len(body) == 1 and isinstance(body[0], ast.Return) and body[0].value is not None:
+                return True
+    return False
+
+
+def _flag_locals(root):
+    """locals bound exactly once (outside loops) to a comparison over names, constants and attributes that the function never
+    stores, and read only where a truth value is asked for (`below = n < self.min` ... `if below or above:`): name -> expression"""
+    params = {a.arg for a in root.args.posonlyargs + root.args.args + root.args.kwonlyargs} | {a.arg for a in (root.args.vararg, root.args.kwarg) if a}
+    stores, loads = {}, {}
+    attr_stores = set()
+    for n in walk_local(root):
+        if isinstance(n, ast.Name):
+            (stores if isinstance(n.ctx, (ast.Store, ast.Del)) else loads).setdefault(n.id, []).append(n)
+        elif isinstance(n, ast.Attribute) and isinstance(n.ctx, (ast.Store, ast.Del)) and dotted(n):
+            attr_stores.add(dotted(n))
+    ok = (ast.Name, ast.Constant, ast.Attribute, ast.Compare, ast.BoolOp, ast.UnaryOp, ast.BinOp, ast.operator, ast.unaryop, ast.cmpop, ast.boolop, ast.expr_context)
+    res = {}
+    for nm, sts in stores.items():
+        if len(sts) != 1 or nm in params or nm not in loads:
+            continue
+        d = getattr(sts[0], 'parent', None)
+        if not (isinstance(d, ast.Assign) and len(d.targets) == 1 and d.targets[0] is sts[0] and _is_predicate(d.value)
+                and all(isinstance(x, ok) or (isinstance(x, ast.Call) and isinstance(x.func, ast.Name) and x.func.id in ('isinstance', 'hasattr', 'callable')
+                                              and not x.keywords) or isinstance(x, ast.Tuple) for x in ast.walk(d.value))):
+            continue
+        if any(isinstance(a, (ast.For, ast.AsyncFor, ast.While, ast.Try, ast.With)) for a in ancestors(d)):
+            continue
+        names = {x.id for x in ast.walk(d.value) if isinstance(x, ast.Name)}
+        if any(len(stores.get(x, [])) + (x in params) > 1 for x in names) or nm in names:
+            continue
+        if any(dotted(x) in attr_stores for x in ast.walk(d.value) if isinstance(x, ast.Attribute) and dotted(x)):
+            continue
+        if any(isinstance(x, ast.Attribute) and not dotted(x) for x in ast.walk(d.value)):
+            continue
+
+        def in_test(x):
+            p, c = getattr(x, 'parent', None), x
+            while isinstance(p, (ast.BoolOp, ast.UnaryOp)) and (not isinstance(p, ast.UnaryOp) or isinstance(p.op, ast.Not)):
+                p, c = getattr(p, 'parent', None), p
+            return isinstance(p, (ast.If, ast.While, ast.IfExp)) and p.test is c
+        if not all(in_test(x) and getattr(x, 'lineno', 0) > d.lineno for x in loads[nm]):
+            continue
+        if any(isinstance(a, (ast.For, ast.AsyncFor, ast.While)) for x in loads[nm] for a in ancestors(x)):
+            continue
+        res[nm] = d.value
+    return res
+
+
+def _pattern_test(subject, pat):
+    """the test a simple pattern stands for (class patterns without sub-patterns, constants, None/True/False, alternatives of
+    those); True for the wildcard, None when the pattern binds names or looks inside the subject"""
+    sub = lambda: _clone_ast(subject)
+    if isinstance(pat, ast.MatchAs) and pat.pattern is None and pat.name is None:
+        return True
+    if isinstance(pat, ast.MatchClass) and not pat.patterns and not pat.kwd_patterns and dotted(pat.cls):
+        return ast.Call(func=ast.Name(id='isinstance', ctx=ast.Load()), args=[sub(), _clone_ast(pat.cls)], keywords=[])
+    if isinstance(pat, ast.MatchValue) and (isinstance(pat.value, ast.Constant) or dotted(pat.value)):
+        return ast.Compare(left=sub(), ops=[ast.Eq()], comparators=[_clone_ast(pat.value)])
+    if isinstance(pat, ast.MatchSingleton):
+        return ast.Compare(left=sub(), ops=[ast.Is()], comparators=[ast.Constant(value=pat.value)])
+    if isinstance(pat, ast.MatchOr):
+        parts = [_pattern_test(subject, p) for p in pat.patterns]
+        if any(p is None or p is True for p in parts):
+            return None
+        if all(isinstance(p, ast.Call) for p in parts):
+            return ast.Call(func=ast.Name(id='isinstance', ctx=ast.Load()), args=[sub(), ast.Tuple(elts=[p.args[1] for p in parts], ctx=ast.Load())], keywords=[])
+        return ast.BoolOp(op=ast.Or(), values=parts)
+    return None
+
+
+def _lower_match(root):
+    """`match x: case A() | B(): S1  case _: S2` over a plain name / dotted name reads `if isinstance(x, (A, B)): S1 else: S2`"""
+    changed = False
+
+    def tr(lst):
+        nonlocal changed
+        out = []
+        for st in lst:
+            for field in ('body', 'orelse', 'finalbody'):
+                sub = getattr(st, field, None)
+                if isinstance(sub, list) and sub and isinstance(sub[0], ast.stmt) and not isinstance(st, FUNC_TYPES + (ast.ClassDef,)):
+                    setattr(st, field, tr(sub))
+            for h in getattr(st, 'handlers', []):
+                h.body = tr(h.body)
+            for c in getattr(st, 'cases', []):
+                c.body = tr(c.body)
+            if isinstance(st, ast.Match) and (isinstance(st.subject, ast.Name) or dotted(st.subject)):
+                tests = [_pattern_test(st.subject, c.pattern) for c in st.cases]
+                if all(t is not None for t in tests) and all(t is not True for t in tests[:-1]):
+                    chain = None
+                    for c, t in reversed(list(zip(st.cases, tests))):
+                        if t is True and c.guard is None:
+                            chain = list(c.body)
+                            continue
+                        test = c.guard if t is True else (t if c.guard is None else ast.BoolOp(op=ast.And(), values=[t, c.guard]))
+                        node = ast.copy_location(ast.If(test=test, body=list(c.body), orelse=chain or []), c.body[0])
+                        chain = [node]
+                    new = chain[0] if len(chain) == 1 else None
+                    if new is not None and isinstance(new, ast.If):
+                        ast.copy_location(new, st)
+                        out.append(ast.fix_missing_locations(new))
+                        changed = True
+                        continue
+            out.append(st)
+        return out
+    root.body = tr(root.body)
+    if changed:
+        set_parents(root)
+    return changed
+
+
 class _IfCall:
     """`if self._helper(...):` as an inlining site: the if statement and the synthetic `_r = self._helper(...)` before it;
     with `nested`: any statement with the helper call somewhere inside its expression (`if helper(v) != n:`,
@@ -820,11 +1035,24 @@ class Model:
                 return None
             has_table = any(table_value(n) is not None or type_tuple(n) is not None for n in ast.walk(fi.node))
             has_walrus = any(isinstance(n, ast.If) and any(isinstance(x, ast.NamedExpr) for x in ast.walk(n.test)) for n in ast.walk(fi.node))
-            if not has_table and not has_walrus and fi.qualname not in self.inlined:
+            has_closure = not os.environ.get('VERIF_NO_CLOSURES') and _has_local_closure(fi.node)
+            has_flags = not os.environ.get('VERIF_NO_FLAGS') and bool(_flag_locals(fi.node))
+            has_pair = not os.environ.get('VERIF_NO_FLAGS') and any(
+                isinstance(n, ast.Assign) and isinstance(n.value, ast.Tuple) and isinstance(n.targets[0], ast.Tuple)
+                and any(_is_predicate(e) for e in n.value.elts) for n in ast.walk(fi.node))
+            has_match = not os.environ.get('VERIF_NO_MATCH') and any(isinstance(n, ast.Match) for n in ast.walk(fi.node))
+            if not has_table and not has_walrus and not has_match and not has_closure and not has_flags and not has_pair and fi.qualname not in self.inlined:
                 continue
+            full = has_table or has_walrus or has_match or fi.qualname in self.inlined
             if fi.qualname not in self.inlined:
                 self._expand(fi, [], [])       # a private copy of the tree
             root = fi.node
+            if has_match:
+                _lower_match(root)
+                if not os.environ.get('VERIF_NO_NORMALIZE'):
+                    normalize_tests(root)
+            if has_closure:
+                _inline_local_closures(root)
 
             class _Tab(ast.NodeTransformer):
                 def visit_Subscript(self, node):
@@ -986,6 +1214,24 @@ class Model:
                 ast.fix_missing_locations(use)
             set_parents(root)
             root.body = split(root.body)
+            if has_flags or has_pair:
+                set_parents(root)
+                flags = _flag_locals(root)
+                if flags:
+                    class _Flag(ast.NodeTransformer):
+                        def visit_Name(self, node):
+                            if isinstance(node.ctx, ast.Load) and node.id in flags:
+                                return ast.copy_location(_clone_ast(flags[node.id]), node)
+                            return node
+
+                        def visit_FunctionDef(self, node):
+                            return node if node is not root else self.generic_visit(node)
+                        visit_Lambda = visit_AsyncFunctionDef = visit_FunctionDef
+                    _Flag().visit(root)
+                    ast.fix_missing_locations(root)
+                    if not os.environ.get('VERIF_NO_NORMALIZE'):
+                        normalize_tests(root)
+                    set_parents(root)
 
             # `for limit in (self.min, self.max): other.validate(limit)`: a loop over a short display with a small body is read unrolled
             def unroll(lst):
@@ -1011,7 +1257,7 @@ class Model:
                         continue
                     out.append(st)
                 return out
-            if not os.environ.get('VERIF_NO_UNROLL'):
+            if not os.environ.get('VERIF_NO_UNROLL') and full:
                 root.body = unroll(root.body)
             # locals bound exactly once to a string constant / a class name are read through
             params = {a.arg for a in root.args.posonlyargs + root.args.args + root.args.kwonlyargs} | \
@@ -1121,10 +1367,14 @@ class Model:
             elif isinstance(st, (ast.Assign, ast.Return)) and isinstance(st.value, ast.Call):
                 sites.append((st, st.value))
             elif isinstance(st, ast.If) and (isinstance(st.test, ast.Call) or (
-                    isinstance(st.test, ast.BoolOp) and isinstance(st.test.op, ast.And) and isinstance(st.test.values[-1], ast.Call) and not st.orelse)):
+                    isinstance(st.test, ast.BoolOp) and isinstance(st.test.op, ast.And) and not st.orelse and (
+                        isinstance(st.test.values[-1], ast.Call) or (isinstance(st.test.values[-1], ast.UnaryOp) and isinstance(st.test.values[-1].op, ast.Not)
+                                                                     and isinstance(st.test.values[-1].operand, ast.Call))))):
                 # `if self._helper(...):` reads as `_r = self._helper(...)` followed by `if _r:`;
-                # `if a and self._helper(...): B` (no else) as `if a:` + `_r = self._helper(...)` + `if _r: B`
+                # `if a and self._helper(...): B` (no else) as `if a:` + `_r = self._helper(...)` + `if _r: B` (also `and not self._helper(...)`)
                 call = st.test if isinstance(st.test, ast.Call) else st.test.values[-1]
+                if isinstance(call, ast.UnaryOp):
+                    call = call.operand
                 sites.append((_IfCall(st, synthetic(call, st)), call))
             if isinstance(st, ast.For) and isinstance(st.iter, ast.Call) and not st.orelse and not os.environ.get('VERIF_NO_GENINLINE'):
                 # `for x in self._items(...): BODY` over a generator helper with one yield
@@ -1449,6 +1699,8 @@ class Model:
                         out.append(st)
                     elif isinstance(st.test, ast.BoolOp):
                         conds = st.test.values[:-1]
+                        if isinstance(st.test.values[-1], ast.UnaryOp):
+                            flag = ast.copy_location(ast.UnaryOp(op=ast.Not(), operand=flag), flag)
                         inner = ast.copy_location(ast.If(test=flag, body=rewrite(st.body), orelse=[]), st)
                         st.test = conds[0] if len(conds) == 1 else ast.copy_location(ast.BoolOp(op=ast.And(), values=conds), st.test)
                         st.body = emitted + [inner]
